@@ -89,5 +89,12 @@ META["C16"] = {"engine": "P-persistence", "design_ref": "DESIGN.md §4 Engine P,
                "level_text": ("Fault enumeration: for each generated history every crash point of one compaction (all hook points after file-system mutations) is recovered twice and compared with the pre-compaction recovery. "
                               "The enumeration is complete for the mutations of that compaction, not for compactions racing with appends."),
                "level_note": "Trusted: hook placement (add-only verifYield calls in the rewrite path), directory copy inside the hook callback as crash image, in-package snapshot; two genuine crash windows are listed as known findings and skipped."}
+ENGINES["W-wire"] = {"path": "harness/server/c13_engine_test.go, c13_wire_test.go, c13_super_test.go", "props": ["C13"], "kind": "structured + mutational PBT (rapid) and native fuzzing of client byte streams through Server.handle over scripted fake connections, process-isolated; bystander-connection oracle"}
+META["C13"] = {"engine": "W-wire", "design_ref": "DESIGN.md §4 Engine W, §5 C13",
+               "technique": "grammar-based and mutational property testing (rapid) plus coverage-guided native fuzzing (thorough tier) of byte streams; oracle: no panic / process death, bystander connection unaffected, handler terminates",
+               "level_text": ("Exploration: generated binary frames with arbitrary fields and value frames of every short length, nested PIPELINE/EXECUTE, lying lengths, every text command with arity sweeps and hostile "
+                              "arguments, then byte-level mutation and arbitrary splits into reads; each case on a fresh in-process leader in a child process so that deaths of background goroutines and Go fatal errors "
+                              "are observed and keyed. Sampling, not proof."),
+               "level_note": "Trusted: the scripted fake net.Conn instead of TCP; domain filter for administrative commands that legitimately stop or reconfigure the server (counted); waits are ended with the server's own forced time-out; 20 genuine crashes were found and repaired by fix: commits (listed as fixed in known_findings.json)."}
 _NOT_BUILT = "check not built yet in this session (planned in DESIGN.md); not claimed rather than faked"
 NOT_APPLICABLE = {f"C{i:02d}": _NOT_BUILT for i in range(1, 21)}
